@@ -4,13 +4,13 @@
 set -u
 cd /repo
 git diff --quiet || { echo "/repo working tree not clean"; exit 2; }
-trap 'git -C /repo checkout -q -- .' EXIT
+trap 'git -C /repo checkout -q -- . ; git -C /repo clean -fdq' EXIT
 miss=0
 for d in /verif/seeded/*/; do
   id=$(basename "$d"); prop=${id%%-*}
   if ! git apply "$d/patch.diff" 2>/dev/null; then echo "$id: patch does not apply to HEAD"; miss=1; continue; fi
   out=$(/verif/bin/uhlint check $prop 2>/dev/null)
-  git checkout -q -- .
+  git checkout -q -- . && git clean -fdq
   if echo "$out" | grep -q '^VIOLATION'; then
     echo "$id: reported $(echo "$out" | grep -o '^[^ ]*: \[[A-Za-z0-9-]*\]' | grep -o '\[[A-Za-z0-9-]*\]' | sort -u | tr -d '\n')"
   else
